@@ -28,7 +28,7 @@ pub const SPEC: PropSpec = PropSpec {
     ],
     run,
     replay,
-    thorough_layers: &[("miri", 1), ("asan", 10)],
+    thorough_layers: &[("miri", 1), ("asan", 10), ("fuzz", 60)],
     quick_layers: &[],
     post: None,
 };
@@ -422,6 +422,9 @@ fn run(ctx: &mut Ctx) {
 }
 
 fn replay(case: &Value, _ctx: &mut Ctx) -> Option<String> {
+    if let Some(h) = case.get("fuzz").and_then(|v| v.as_str()) {
+        return fuzz_entry(&crate::ctx::unhex(h)).err();
+    }
     let input = input_from_json(&case["input"]);
     let cfg = CfgHist::from_json(&case["cfg"]);
     let cuts: Vec<usize> = case["cuts"]
@@ -437,4 +440,24 @@ fn replay(case: &Value, _ctx: &mut Ctx) -> Option<String> {
             check_async(&input, &cfg, &cuts, &p, &base, &mut loc).err()
         }
     }
+}
+
+/// libFuzzer entry: byte 0 = configuration, bytes 1..3 = cut mask / pending seed, rest = input
+pub fn fuzz_entry(data: &[u8]) -> Result<(), String> {
+    if data.len() < 4 {
+        return Ok(());
+    }
+    let cfg = CfgHist::fixed(data[0] & 0x7F);
+    let input = &data[3..];
+    if input.len() < 2 {
+        return Ok(());
+    }
+    let fmin = first_min(input);
+    let mut r = Rng::new(((data[1] as u64) << 8) | data[2] as u64);
+    let cuts: Vec<usize> = if data[1] & 1 == 0 { cuts_for_piece(input.len(), 1 + (data[2] % 4) as usize, fmin) } else { random_cuts(&mut r, input.len(), fmin) };
+    let base = trace_slice(input, &cfg);
+    check_buffered(input, &cfg, &cuts, &base)?;
+    let mut loc = Local::default();
+    let pend = random_pending(&mut r, cuts.len() + 1);
+    check_async(input, &cfg, &cuts, &pend, &base, &mut loc)
 }
